@@ -21,7 +21,7 @@ TARGETS = ['valjean.eponine.browser:Browser.__init__', 'valjean.eponine.browser:
 BOUNDS = {
     'quick': {'items': '<= 3', 'metadata keys': "pool {'a','b'} (+ data key, + reserved 'index')",
               'values': 'arbitrary hashable (symbolic, equality only)', 'data_key': ["'results'", "'d'"],
-              'query': 'per key: absent or a symbolic value; include/exclude: any subsets of the pool + a key no item has + the data key',
+              'query': 'per key: absent or a symbolic value; include/exclude: any subsets of the pool + a key no item has + the data key (single operations and merges; not in the two-query chains)',
               'merge': 'right operand with 1 item, or item-less but carrying global variables',
               'chains': 'single operation (filter_by, select_by, merge, keys/available_values)',
               'long lists': '10 items, one key with two concrete values, every subset of matching items (order of the selection)'},
@@ -41,6 +41,7 @@ EXPLANATION = ('bounded symbolic execution (symrun + z3) of the real Browser/Ind
 POOL = ['a', 'b']          # rebound per job (module global, jobs run in separate processes)
 INCEXC = 'full'
 DATA_KEY = 'results'
+WITH_DATA_KEY = True
 
 
 def _mk_items(ex, n, data_key, tag='i'):
@@ -62,13 +63,14 @@ def _query(ex, tag='q'):
     for k in POOL:
         if ex.flag(f'{tag}has{k}'):
             kw[k] = ex.key(f'{tag}{k}')
-    extra = POOL + ['zz', DATA_KEY]          # a key no item has, and the data key (which every item has)
+    dk = [DATA_KEY] if WITH_DATA_KEY else []      # (not in the two-query chains: path budget)
+    extra = POOL + ['zz'] + dk          # a key no item has, and the data key (which every item has)
     if INCEXC == 'full':
         inc = tuple(k for k in extra if ex.flag(f'{tag}inc{k}'))
         exc = tuple(k for k in extra if ex.flag(f'{tag}exc{k}'))
     else:
-        incs = [(), (POOL[0],), (POOL[0], 'zz'), (POOL[-1],), (DATA_KEY,)]
-        excs = [(), (POOL[-1],), ('zz',), (DATA_KEY,)]
+        incs = [(), (POOL[0],), (POOL[0], 'zz'), (POOL[-1],)] + [(k,) for k in dk]
+        excs = [(), (POOL[-1],), ('zz',)] + [(k,) for k in dk]
         inc = incs[ex.choice(len(incs), f'{tag}inc')]
         exc = excs[ex.choice(len(excs), f'{tag}exc')]
     return kw, inc, exc
@@ -185,8 +187,8 @@ def make_harness(n, data_key, mode, n2=1, pool='ab', incexc='full', globs_on=Fal
         return make_long_harness(n, data_key)
 
     def harness(ex):
-        global POOL, INCEXC, DATA_KEY
-        POOL, INCEXC, DATA_KEY = list(pool), incexc, data_key
+        global POOL, INCEXC, DATA_KEY, WITH_DATA_KEY
+        POOL, INCEXC, DATA_KEY, WITH_DATA_KEY = list(pool), incexc, data_key, mode != 'chain'
         from valjean.eponine.browser import Browser, NoItemBrowserError, TooManyItemsBrowserError
         items, datas = _mk_items(ex, n, data_key)
         globs = {'g': 1} if globs_on else None
@@ -279,7 +281,7 @@ def make_harness(n, data_key, mode, n2=1, pool='ab', incexc='full', globs_on=Fal
 
 
 def _job(n, data_key, mode, timeout_ms, n2=1, pool='ab', incexc='full', globs_on=False, seed=0):
-    return run_sym('x', make_harness(n, data_key, mode, n2, pool, incexc, globs_on), timeout_ms=timeout_ms, seed=seed,
+    return run_sym('x', make_harness(n, data_key, mode, n2, pool, incexc, globs_on), timeout_ms=timeout_ms, seed=seed, max_paths=600000,
                    require_checks=[mode + ':original-browser-unchanged'])
 
 
